@@ -89,6 +89,16 @@ BUILTIN_EXC_BASES = {
     'NotADirectoryError': 'OSError',
     'IsADirectoryError': 'OSError',
     'BadGzipFile': 'OSError',
+    'InterruptedError': 'OSError',
+    'BlockingIOError': 'OSError',
+    'ChildProcessError': 'OSError',
+    'ProcessLookupError': 'OSError',
+    'TimeoutError': 'OSError',
+    'ConnectionError': 'OSError',
+    'BrokenPipeError': 'ConnectionError',
+    'ConnectionRefusedError': 'ConnectionError',
+    'ConnectionResetError': 'ConnectionError',
+    'ConnectionAbortedError': 'ConnectionError',
     'LZMAError': 'Exception',
     'EOFError': 'Exception',
     'RuntimeError': 'Exception',
